@@ -497,7 +497,7 @@ def main():
                            "i < size-1), sum, unique over lists and scalars, membership in a list, size, fixed element references; histories of "
                            "randomize / append / extend / clear / setitem; after every op len(), size, indexing and iteration are read"})
     rc = ck.finish(obligations=obligations,
-                   assumptions=["as C01 for the solve itself", "lists of objects, enum lists, product and unique_vec are not generated in this revision",
+                   assumptions=["as C01 for the solve itself", "lists of objects are generated by the object-tree checks (C03, C07, C08, C17), not here; enum lists and nested foreach are not generated",
                                 "the property is evaluated by the driver on exactly the exposed elements (l.spec), independently of how the "
                                 "implementation elaborated the constraints"],
                    theorems_lost=THEOREMS)
